@@ -24,6 +24,9 @@ CLAIMED = {
  "C09": ("argument provenance + all-paths close/reset typestate + branch-fact dominance + symbolic bound proof + call-graph reachability over go/ssa",
          "Static: delegate OnSample arguments are W.Candidate/AverageRTT, W.MaxInFlight, W.DidDrop of the one window being replaced; every closing path resets to the empty window and advances nextUpdateTime by a value proved within [minWindowTime,maxWindowTime], other paths do neither; closing is dominated by endTime > nextUpdateTime (read under the lock) and a strict readiness comparison; AddSample/AddDroppedSample are pure folds (min/max selections, +rtt, +1, sticky drop); threshold filter precedes every recording and nothing reachable from OnIgnore touches a window. Concurrent completions between snapshot and re-lock are not decided.",
          "5/C09"),
+ "C13": ("select-case classification + dominator/edge analysis + all-paths outcome check + symbolic bound proof (> 0) over go/ssa",
+         "Static: every blocking select in the limiter package has wake-up, ctx.Done and (when the configured bound is positive) timer cases, no bare blocking channel operation exists, only the wake-up case yields success; ctx.Err()/deadline tests dominate every delegate.Acquire, their failing edges refuse untouched, a post-wait Acquire requires the signalled result; a computed remaining-time bound is proved > 0 before it reaches the wait primitive. Existence and ordering of the give-up mechanisms only: exact instants on a virtual clock are not decided.",
+         "5/C13"),
 }
 
 PENDING_REASON = "check not built yet in this session; see DESIGN.md section 5 for the planned static obligations"
